@@ -690,7 +690,7 @@ class FunctionalRightVectorMult(Functional, OperatorRightVectorMult):
                             ''.format(func))
 
         OperatorRightVectorMult.__init__(self, operator=func, vector=vector)
-        Functional.__init__(self, space=func.domain)
+        Functional.__init__(self, space=func.domain, linear=func.is_linear)
 
     @property
     def functional(self):
